@@ -725,6 +725,42 @@ func failedListen(tr string) (ok bool, note string) {
 	}
 }
 
+// inprocParkedDial: an inproc Dial that found the listener but no accepter yet (the server is busy attaching the previous
+// connection) is parked; when that listener is closed the Dial returns -- it does not wait for ever for a listener that
+// no longer exists.  Returns (Dial returned within 2 s, it returned an error).
+func inprocParkedDial() (bool, bool, string) {
+	tr := transport.GetTransport("inproc")
+	if tr == nil {
+		return false, false, "no inproc transport"
+	}
+	srv, cli := wire.New("pair"), wire.New("pair")
+	defer srv.Close()
+	defer cli.Close()
+	ad := wire.Addr("inproc")
+	l, err := tr.NewListener(ad, srv)
+	if err != nil {
+		return false, false, "NewListener: " + err.Error()
+	}
+	if err := l.Listen(); err != nil {
+		return false, false, "Listen: " + err.Error()
+	}
+	d, err := tr.NewDialer(ad, cli)
+	if err != nil {
+		return false, false, "NewDialer: " + err.Error()
+	}
+	res := make(chan error, 1)
+	go func() { _, e := d.Dial(); res <- e }() // nobody is in Accept: parked
+	time.Sleep(20 * time.Millisecond)
+	_ = l.Close()
+	select {
+	case e := <-res:
+		return true, e != nil, ""
+	case <-time.After(2 * time.Second):
+		// let it go: a new listener on the address with an accepter
+		return false, false, "Dial still parked 2 s after the listener it was waiting for was closed"
+	}
+}
+
 // send side: what Send writes for a header and a body
 func runSend(r *rand.Rand) string {
 	ipc := r.Intn(2) == 0
@@ -876,6 +912,15 @@ func main() {
 			fmt.Fprintln(os.Stderr, "stream: silent peers", tr, note)
 		}
 		late = append(late, fmt.Sprintf("(%q, %s, true)%s", "connections that stay silent before their handshake do not delay the next peer ("+tr+")", coqgen.Bool(ok), n))
+	}
+	{
+		ret, errd, note := inprocParkedDial()
+		n := ""
+		if note != "" {
+			n = " (* " + note + " *)"
+			fmt.Fprintln(os.Stderr, "stream: inproc parked dial:", note)
+		}
+		late = append(late, fmt.Sprintf("(%q, %s, %s)%s", "an inproc Dial parked for an accepter returns (with an error) when that listener is closed", coqgen.Bool(ret), coqgen.Bool(errd), n))
 	}
 	for _, tr := range wire.Transports {
 		if tr == "inproc" {
